@@ -20,6 +20,8 @@ def gen_case(rng, kind, nmax=7, malformed=False):
     r = rng.random()
     if malformed and r < 0.5:
         case['i0'] = [gc.order[0]]; case['rho'] = F(1, 4)            # both given: EoNError
+    elif malformed and kind == 'SIR' and r < 0.75:
+        case['i0'] = None; case['rho'] = F(1, 4); case['r0'] = [gc.order[-1]]     # rho + initial_recovereds: EoNError (Gillespie_SIR)
     elif r < 0.12:
         case['i0'] = None; case['rho'] = rng.choice([None, F(1, 4), F(1, 2), F(3, 8), F(1)])
     else:
@@ -150,6 +152,12 @@ def oracle_generator(case, impl, m=None):
     if case['rho'] is not None and case['i0'] is not None:
         if not (impl['status'] == 'EXC' and impl['err'] == 'EoNError'):
             bad.append(('rho+initial_infecteds', 'giving both rho and initial_infecteds was not rejected with EoNError (got %s %s)' % (impl['status'], impl.get('err'))))
+        return bad
+    if case['rho'] is not None and case['r0'] is not None and kind == 'SIR':
+        # rho together with initial_recovereds: Gillespie_SIR rejects it (fast_SIR does too); a run that went ahead could
+        # have drawn an initially recovered node as initially infected
+        if not (impl['status'] == 'EXC' and impl['err'] == 'EoNError'):
+            bad.append(('rho+initial_recovereds', 'giving both rho and initial_recovereds was not rejected with EoNError (got %s %s)' % (impl['status'], impl.get('err'))))
         return bad
     pos = 0; di = 0
     def nxt():
